@@ -695,7 +695,7 @@ func (r *lexRun) call(ins ssa.Instruction, cc *ssa.CallCommon, st *lexState) {
 	e, f := r.e, r.f
 	sc := cc.StaticCallee()
 	if sc != nil && e.isMethod(sc) && len(cc.Args) > 0 && cc.Args[0] == f.Params[0] {
-		if sc.Name() == "next" && len(cc.Args) == 2 {
+		if len(cc.Args) == 2 && (sc.Name() == "next" || removesParamBytes(sc)) {
 			if r.lb(cc.Args[1], st, 0) >= 1 {
 				st.adv = true
 			}
@@ -901,4 +901,33 @@ func lexCycleKey(cyc []lexEdge) string {
 		}
 	}
 	return best
+}
+
+
+// removesParamBytes: a lexer method with one integer parameter n whose body re-slices the input by exactly that
+// parameter (chunk = chunk[n:]) on every path — next(n) and its character-counting sibling nextChars(n)
+func removesParamBytes(g *ssa.Function) bool {
+	if g == nil || len(g.Blocks) != 1 || len(g.Params) != 2 {
+		return false
+	}
+	for _, ins := range g.Blocks[0].Instrs {
+		st, ok := ins.(*ssa.Store)
+		if !ok {
+			continue
+		}
+		fa, ok := st.Addr.(*ssa.FieldAddr)
+		if !ok || fa.X != g.Params[0] || fieldName(fa.X.Type(), fa.Field) != "chunk" {
+			continue
+		}
+		sl, ok := st.Val.(*ssa.Slice)
+		if !ok || sl.Low != g.Params[1] || sl.High != nil {
+			continue
+		}
+		if ld, ok := sl.X.(*ssa.UnOp); ok {
+			if fa2, ok := ld.X.(*ssa.FieldAddr); ok && fa2.X == g.Params[0] && fieldName(fa2.X.Type(), fa2.Field) == "chunk" {
+				return true
+			}
+		}
+	}
+	return false
 }
